@@ -122,6 +122,8 @@ def _case_h2(rng, tier, n, h2c=False):
     credit = rng.choice(["auto", "auto", {"drip": rng.choice([1, 1000, 16384, 100000])},
                          {"drip": 5000, "order": "conn_first"}])
     rspec = {"kind": "h2", "credit": credit, "initial_window": iw, "max_frame": mf}
+    if rng.random() < 0.2:
+        rspec["prio_after_credit"] = rng.choice([[16], [1, 255], [200, 3, 77]])  # PRIORITY for a stream is the last frame after its credit
     fb = FrameBuilder()
     reqs, resps, by_tag = [], [], {}
     small_credit = iw < 1000 or (isinstance(credit, dict) and credit["drip"] < 5000)
